@@ -92,6 +92,18 @@ def stepRecovery (w : RecW) : List String → RecW × String
       | .error e => (w, showErr e ++ " | " ++ showRec w w.r)
       | .ok r => commit w r
     | none => (w, "bad-op")
+  | ["rec.resched", now] =>          -- QuicPacketRecovery.reschedule_data called by the connection
+    match ofBits? now with
+    | some now => commit w (rescheduleData FA w.r now)
+    | none => (w, "bad-op")
+  | ["rec.spaces", n] =>            -- `_loss.spaces = [fresh spaces]` (QuicConnection._initialize)
+    match n.toNat? with
+    | some n => commit w { w.r with spaces := List.replicate n {} }
+    | none => (w, "bad-op")
+  | ["rec.mad", v] =>               -- `_loss.max_ack_delay = ...` (transport parameters)
+    match ofBits? v with
+    | some v => commit w { w.r with maxAckDelay := v }
+    | none => (w, "bad-op")
   | ["rec.ldt", pv] =>
     match boolOf pv with
     | some pv => (w, s!"ok {showOF (getLossDetectionTime FA w.r pv)} pto={fbits (getProbeTimeout FA w.r)}")
